@@ -85,6 +85,8 @@ class _Env:
             raise AssertionError("expected spox to raise")
         if how == 3:
             raise KeyError("k")
+        if how == 4:  # not an Exception subclass: "any exception" includes these
+            raise KeyboardInterrupt()
         raise _Boom("body raised")
 
 
@@ -96,6 +98,7 @@ def run_real(env: _Env, blocks, init):
     """
     env.write(init)
     log, records = [], []
+    shared = {}  # one decorator object per (manager, arg), re-used by nested/repeated blocks
 
     def run_block(b):
         pre = env.read()
@@ -114,6 +117,11 @@ def run_real(env: _Env, blocks, init):
         try:
             if b.get("form") == "decorator":
                 env.manager(b["which"], b["arg"])(body)()
+            elif b.get("form") == "shared-decorator":
+                key = (b["which"], b["arg"])
+                if key not in shared:
+                    shared[key] = env.manager(*key)
+                shared[key](body)()
             else:
                 with env.manager(b["which"], b["arg"]):
                     body()
@@ -124,7 +132,7 @@ def run_real(env: _Env, blocks, init):
     for b in blocks:
         try:
             run_block(b)
-        except Exception:  # noqa: BLE001 - top level of a history catches, like the model's runTop
+        except BaseException:  # noqa: BLE001 - top level of a history catches, like the model's runTop
             pass
     final = env.read()
     return final, log, records
@@ -134,9 +142,10 @@ def oracle(records):
     """Model-free: the property's own words, judged on the real execution."""
     bad = []
     for r in records:
-        if r["post"] != r["pre"]:
-            kind = "leak-after-exception" if r["raises"] else "leak-after-exit"
-            bad.append((MANAGERS[r["which"]], kind, r))
+        for j in range(3):  # attribute a leak to the setting that differs, not to the enclosing block
+            if r["post"][j] != r["pre"][j]:
+                kind = "leak-after-exception" if r["raises"] and j == r["which"] else "leak-after-exit"
+                bad.append((MANAGERS[j], kind, r))
         exp = list(r["pre"])
         exp[r["which"]] = r["arg"]
         if r["inside"] is not None and r["inside"] != exp:
@@ -167,8 +176,8 @@ def label(shape, labels):
 def decorate(blocks, rng: random.Random):
     for b in blocks:
         b["arg"] = rng.randrange(1 if b["which"] == 2 else 0, N_ARGS[b["which"]])
-        b["form"] = rng.choice(["with", "decorator"])
-        b["how"] = rng.choice([1, 1, 2, 3])
+        b["form"] = rng.choice(["with", "decorator", "shared-decorator"])
+        b["how"] = rng.choice([1, 1, 2, 3, 4])
         decorate(b["inner"], rng)
 
 
